@@ -64,7 +64,7 @@ def gen_input(rng, n=None, fmt=None):
         n = rng.choice([0, 1, 2, 3, 5, 7, 12, 30, 80])
     fmt = fmt or rng.choice(["dkvp", "dkvp", "json", "csv", "csvlite"])
     sparse = fmt in ("dkvp", "json", "csvlite") and rng.chance(0.4)
-    recs = gen_records(rng, n, sparse=sparse, wide=rng.chance(0.15))
+    recs = gen_records(rng, n, sparse=sparse, wide=rng.chance(0.25))
     if fmt == "dkvp":
         return [], to_dkvp(recs), fmt
     if fmt == "json":
@@ -178,6 +178,14 @@ CATALOG = [
                                       "begin { @first = \"\" } if (@first == \"\") { @first = $a } $first = @first",
                                       "$idx = NR % 3; if (NR > 2) { unset $x }",
                                       "map m = {}; m[NR] = $i; $s = joinv(m, \",\")"])]),
+    # key-index maintenance (records with >= 12 fields are hash-indexed lazily): rename / unlink / re-add paths
+    ("S", lambda r: ["put", r.choice(["$[[1]] = \"new\"; $z = is_present($a) ? \"old-name-still-there\" : \"gone\"",
+                                      "$[[2]] = \"a\"; $n = NF", "$[[[1]]] = \"v\"; $z = $a", "$[[3]] = $[[4]]; $nf = NF",
+                                      "unset $a; $a = \"back\"; $q = $a . $i", "$* = mapexcept($*, \"b\"); $b = is_present($b) ? 1 : 0",
+                                      "map m = $*; unset m[\"a\"]; $* = m; $q = is_present($a)", "$[[1]] = \"i\"; $s = $i . \":\" . NF",
+                                      "$new = $a; unset $a; $[[1]] = \"a\"; $t = $a"])]),
+    ("S", lambda r: ["rename", r.choice(["i,a", "a,b,b,a", "x,y", "a,i,i,x"])]),
+    ("S", lambda r: ["reorder", "-e", "-f", "a"] if r.chance(0.5) else ["reorder", "-f", "y,x"]),
     ("N", lambda r: ["summary"]),
     ("N", lambda r: ["summary", "-a", "mean,minlen,null_count,median", "--transpose"]),
     ("N", lambda r: ["rank", "-f", r.choice(["x", "i"])]),
@@ -372,6 +380,76 @@ def termination_cases(rng, tier):
                "no_ref": any("100000000" in v for v in verbs)}
 
 
+# ---------------------------------------------------------------- --hash-records / --no-hash-records
+
+KEY_VERBS = [
+    lambda r: ["put", r.choice(["$[[1]] = \"new\"; $z = is_present($a) ? \"old-name-still-there\" : \"gone\"",
+                                "$[[2]] = \"a\"; $n = NF", "$[[[1]]] = \"v\"; $z = $a", "$[[3]] = $[[4]]; $nf = NF",
+                                "unset $a; $a = \"back\"; $q = $a . $i", "$* = mapexcept($*, \"b\"); $b = is_present($b) ? 1 : 0",
+                                "map m = $*; unset m[\"a\"]; $* = m; $q = is_present($a)", "$[[1]] = \"i\"; $s = $i . \":\" . NF",
+                                "$new = $a; unset $a; $[[1]] = \"a\"; $t = $a", "$f3 = $f1 . $f2; unset $f1; $g = is_present($f1)",
+                                "for (k, v in $*) { if (k =~ \"^f[0-3]$\") { unset $[k] } } $left = NF",
+                                "$*  = mapsum({\"first\": NR}, $*); $[[2]] = \"second\"; $u = $second",
+                                "$f0 = $f0 + 1; $f5 = $f0 * 2; $[[6]] = \"six\"; $v = is_present($six)"])],
+    lambda r: ["rename", r.choice(["i,a", "a,b,b,a", "x,y", "a,i,i,x", "f0,f1", "f1,zz,zz,f2"])],
+    lambda r: ["rename", "-r", r.choice(["^f(.)$,g_\\1", "^(.)$,\\1\\1", "^f[0-4]$,same"])],
+    lambda r: ["rename", "-g", "-r", "f,F"],
+    lambda r: ["reorder", "-f", r.choice(["y,x", "f3,a", "f9,f0"])],
+    lambda r: ["reorder", "-e", "-f", r.choice(["a", "f1,f0", "i,b"])],
+    lambda r: ["cut", r.choice(["-f", "-o -f", "-x -f"]).split(" ")[-1] if False else "-f", r.choice(["a,f1,f7", "f0,f1,f2,f3,f4,f5,f6,f7,a,b,i,x", "y,f2"])],
+    lambda r: ["cut", "-x", "-f", r.choice(["a", "f0,f1", "b,i,x,y"])],
+    lambda r: ["cut", "-o", "-f", "f3,a,f1"],
+    lambda r: ["cut", "-r", "-f", "^f[0-5]$"],
+    lambda r: ["template", "-f", "f2,a,zz,f0"],
+    lambda r: ["label", r.choice(["p,q", "f1,f0", "a,b,c,d,e,f,g,h,i,j,k,l,m"])],
+    lambda r: ["sort-within-records"],
+    lambda r: ["nest", "--ivar", ";", "-f", "a"],
+    lambda r: ["fill-empty"],
+    lambda r: ["sec2gmt", "f0,i"],
+    lambda r: ["unsparsify", "-f", "zz,f0,f30"],
+    lambda r: ["regularize"],
+    lambda r: ["merge-fields", "-a", "sum", "-f", "f0,f1,f2", "-o", "s"],
+    lambda r: ["merge-fields", "-k", "-a", "max", "-c", "f1,f2", "-o", "m"],
+    lambda r: ["step", "-a", "delta", "-f", "f0,f8"],
+    lambda r: ["having-fields", "--at-least", "f0,f7"],
+    lambda r: ["sub", "-f", "a,f1", "1", "one"],
+    lambda r: ["count-similar", "-g", "a,f0"],
+    lambda r: ["stats1", "-a", "sum", "-f", "f0,f7,i", "-g", "a"],
+    lambda r: ["sort", "-nr", "f3", "-f", "a"],
+    lambda r: ["top", "-n", "2", "-f", "f5", "-g", "a", "-a"],
+    lambda r: ["json-stringify", "-f", "f2"],
+    lambda r: ["altkv"],
+    lambda r: ["sparsify"],
+    lambda r: ["put", "-q", "@r[$a][$f0] = $*; end { emit @r, \"a\", \"f0\" }"],
+]
+
+
+def hash_cases(rng, tier):
+    """Wide records (>= 12 fields, where the lazy key index kicks in) through verbs that look up, rename, remove and
+    re-add keys; every case is run with --hash-records and with --no-hash-records (and the default)."""
+    i = 0
+    while True:
+        i += 1
+        r = rng.fork("hash", i)
+        n = r.choice([1, 2, 5, 12, 30])
+        recs = []
+        nwide = r.randint(8, 16)
+        for k in range(n):
+            rec = [("a", r.choice(VOCAB_A)), ("b", r.choice(VOCAB_B)), ("i", str(r.randint(0, 40))), ("x", "%.4f" % r.random())]
+            if not r.chance(0.15):
+                rec += [("f%d" % j, str(r.randint(0, 99))) for j in range(nwide)]
+            if r.chance(0.2):
+                rec.pop(r.below(len(rec)))
+            recs.append(rec)
+        fmt = r.choice(["dkvp", "json", "csvlite"])
+        text = {"dkvp": to_dkvp, "json": to_json, "csvlite": to_csv}[fmt](recs)
+        iflags = {"dkvp": [], "json": ["--ijson"], "csvlite": ["--icsvlite"]}[fmt]
+        verbs = [r.choice(KEY_VERBS)(r) for _ in range(r.randint(1, 3))]
+        args = ["mlr"] + iflags + r.choice([[], ["--ojson"], ["--oxtab"]]) + chain_args(verbs) + ["in0.txt"]
+        yield {"kind": "hash", "args": args, "files": {"in0.txt": text}, "cseed": r.randint(1, 1 << 40), "nconf": 4 if tier == "quick" else 6,
+               "force_flags": [["--hash-records"], ["--no-hash-records"], ["--no-hash-records", "--records-per-batch", "1"]]}
+
+
 # ---------------------------------------------------------------- tail -f
 
 TAIL_VERBS = [
@@ -465,7 +543,7 @@ def seed_cases(rng, tier):
 
 def shrink_input(case):
     """Candidates with smaller inputs / shorter chains (generated kinds only)."""
-    if case.get("kind") not in ("chain", "termination", "seed", "fault"):
+    if case.get("kind") not in ("chain", "termination", "seed", "fault", "hash"):
         return
     files = case.get("files") or {}
     for name, text in files.items():
